@@ -36,9 +36,14 @@ impl Write for Sink {
 
 fn render(cx: &mut Ctx, noalloc: bool, f: impl FnOnce(&mut Sink) -> fmt::Result) -> Result<String, Pk> {
     let mut sink = Sink::new();
+    let before = (tl::ledger_live_count(), tl::ledger_len());
     let r = tl::lib(|| f(&mut sink));
     match r {
         Ok(res) => {
+            // "formatting never changes the container": no tracked key or value is destroyed
+            // (or cloned) by rendering it
+            let after = (tl::ledger_live_count(), tl::ledger_len());
+            cx.chk(PS::of(Prop::C19), before == after, "fmt-side-effect", || format!("formatting destroyed or created elements: {} live of {} objects before, {} of {} after", before.0, before.1, after.0, after.1));
             if noalloc {
                 cx.bump(S::alloc_checks);
                 let n = tl::last_allocs();
@@ -88,7 +93,13 @@ pub fn fmt_spec_noalloc<KD: Kind>(cx: &mut Ctx, d: Option<&dyn fmt::Display>, g:
 }
 
 pub fn fmt_display<KD: Kind>(cx: &mut Ctx, x: &dyn fmt::Display) -> Result<String, Pk> {
-    render(cx, KD::NOALLOC, |s| write!(s, "{x}"))
+    let plain = render(cx, KD::NOALLOC, |s| write!(s, "{x}"));
+    // Display has one layout: '{' entries joined by ", " '}'. The alternate flag means nothing to
+    // the Display of any payload kind used here, so `{:#}` must render the same text.
+    if let (Ok(p), Ok(a)) = (&plain, render(cx, KD::NOALLOC, |s| write!(s, "{x:#}"))) {
+        cx.chk(PS::of(Prop::C19), *p == a, "display-alternate", || format!("Display under the alternate flag renders {a:?}, plain Display renders {p:?}"));
+    }
+    plain
 }
 
 /// Split at top-level ", " separators (ignores commas inside (), [], {} and string literals).
